@@ -23,7 +23,7 @@ OBLIGATIONS = ["call_forms_agree", "slice_spec", "slice_compose", "matrix_slice_
                "slice_spec_all", "cond_slice_compose", "slice_compose_all",
                "slice_exceptions_spec", "slice_succeeds_iff", "gv_dict_exceptions_spec", "gv_list_exceptions_spec",
                "call_kw_exceptions_spec", "slice_compose_exceptions", "slice_compose_succeeds",
-               "cond_slice_exceptions_spec", "cond_gv_dict_exceptions_spec"]
+               "cond_slice_exceptions_spec", "cond_gv_dict_exceptions_spec", "cond_slice_dims_exact"]
 N_QUICK, N_THOROUGH = 100, 600         # batches of 10 sub-cases each
 PARALLEL = 8
 SHARD = 12
